@@ -66,6 +66,35 @@ class Result:
                 cur.update(what=what, replay=replay, size=size)
 
 
+def _lookahead(sp: Any, cfg: dict, hist: list, res: 'Result') -> None:
+    """One more call from a state that is not expanded because its views
+    disagree (it is reported, as such, to the property about views): what
+    every call of the alphabet does to the *program* from there is still
+    judged, so a defect whose first symptom is an inconsistent view is also
+    seen by the property about program order once an edit acts on that view.
+    Anything the inconsistent object makes the harness itself stumble over
+    ends the look-ahead silently."""
+    try:
+        pre_obj = sp.replay(cfg, hist)
+        pre = sp.observe(pre_obj)
+        calls = sp.alphabet(pre, cfg)
+    except Exception:  # noqa
+        return
+    cache: dict = {}
+    for call in calls:
+        try:
+            obj2, out = sp.apply(sp.replay(cfg, hist), call)
+            res.transitions += 1
+            F, _, _ = sp.judge_transition(pre, pre_obj, call, out, obj2, cache)
+        except Exception:  # noqa
+            continue
+        for prop, sig, what in F:
+            res.merge_finding(prop, sig + '/after-inconsistent-views', what, {
+                'config': cfg, 'history': hist, 'call': call,
+                'at': 'transition',
+            })
+
+
 def _expand_batch(arg: tuple) -> dict:
     """Expand a batch of frontier items (part index, history, keep history?)."""
     mod, cfgs, idx, items = arg
@@ -102,6 +131,7 @@ def _expand_batch(arg: tuple) -> dict:
                 })
             if broken:
                 dead.add(key)
+                _lookahead(sp, cfg, h + [call], res)
                 continue
             new[key] = ((h + [call]) if want_hist else None, sp.nontrivial(post))
     return {
@@ -278,6 +308,23 @@ def _deviate(arg: tuple) -> dict:
         F2, broken = sp.judge_state(probe, sp.observe(probe), call[0])
         note(F2, h, call, 'state')
         if broken:
+            # not a start state; but the script behind it still shows what
+            # the inconsistency does to the program (see _lookahead)
+            try:
+                cur, cur_obs = obj, post
+                for step in script[i + 1:]:
+                    nxt, out2 = sp.apply(cur, step)
+                    res.transitions += 1
+                    F3, post2, go2 = sp.judge_transition(
+                        cur_obs, cur, step, out2, nxt, {})
+                    note([(p_, s_ + '/after-inconsistent-views', w_)
+                          for p_, s_, w_ in F3], hist, step, 'transition')
+                    if post2 is None or not go2:
+                        break
+                    hist = hist + [step]
+                    cur, cur_obs = nxt, post2
+            except Exception:  # noqa
+                pass
             continue
         if sp.nontrivial(post):
             nontriv.add(key)
